@@ -77,6 +77,7 @@ static inline void mpmc_fifo_push(hazard_pointer_thread_record_t* hptr,
     if (atomic_compare_exchange_weak_explicit(&fifo->tail, &tail, new_node,
                                               memory_order_release,
                                               memory_order_relaxed)) {
+      FIBER_VERIF_POINT(FV_MPMC_PUSH_MID, fifo, new_node);
       tail->prev = new_node;
       hazard_pointer_done_using(hptr, 0);
       return;
@@ -112,6 +113,7 @@ static inline void* mpmc_fifo_trypop(hazard_pointer_thread_record_t* hptr,
 
     // push thread has successfully updated prev
     ret = prev->value;
+    FIBER_VERIF_POINT(FV_MPMC_POP_PRE_CAS, fifo, head);
     if (atomic_compare_exchange_weak_explicit(&fifo->head, &head, prev,
                                               memory_order_release,
                                               memory_order_relaxed)) {
